@@ -1,0 +1,213 @@
+//! Verification hook H2 (compiled only with `--cfg zerokit_verif`): a call tracer for the Merkle tree
+//! backends. When the environment variable `ZEROKIT_VERIF_TRACE` names a directory, every outermost
+//! mutating call of a tree (`new`, `set`, `set_range`, `override_range`, `update_next`, `delete`) and
+//! every drop appends one JSON line to `<dir>/tree-<pid>.ndjson`: instance, backend, hasher, call,
+//! arguments, result and - read after the change through the tree's own getters - root, leaf count and
+//! the leaves at the touched positions. Calls made by the backends on themselves while a traced call is
+//! running are not events. Without the variable nothing is recorded.
+use crate::merkle_tree::{Hasher, ZerokitMerkleTree};
+use std::cell::Cell;
+use std::fmt::{Display, Write as _};
+use std::io::Write as _;
+use std::sync::{Mutex, OnceLock};
+
+struct Sink {
+    file: std::fs::File,
+    seq: u64,
+}
+
+static SINK: OnceLock<Option<Mutex<Sink>>> = OnceLock::new();
+
+thread_local! {
+    static INSIDE: Cell<bool> = const { Cell::new(false) };
+}
+
+fn sink() -> Option<&'static Mutex<Sink>> {
+    SINK.get_or_init(|| {
+        let dir = std::env::var_os("ZEROKIT_VERIF_TRACE")?;
+        let path =
+            std::path::PathBuf::from(dir).join(format!("tree-{}.ndjson", std::process::id()));
+        std::fs::OpenOptions::new()
+            .create(true)
+            .append(true)
+            .open(path)
+            .ok()
+            .map(|file| Mutex::new(Sink { file, seq: 0 }))
+    })
+    .as_ref()
+}
+
+fn emit(body: &str) {
+    if let Some(m) = sink() {
+        // the sequence number is taken and the line written under one lock: file order = event order
+        let mut s = m.lock().unwrap_or_else(|e| e.into_inner());
+        s.seq += 1;
+        let line = format!(
+            "{{\"seq\":{},\"pid\":{},\"th\":\"{:?}\",{}}}\n",
+            s.seq,
+            std::process::id(),
+            std::thread::current().id(),
+            body
+        );
+        let _ = s.file.write_all(line.as_bytes());
+    }
+}
+
+/// JSON string of a displayable value
+pub fn q<T: Display>(v: &T) -> String {
+    let mut out = String::from("\"");
+    for c in v.to_string().chars() {
+        match c {
+            '"' => out.push_str("\\\""),
+            '\\' => out.push_str("\\\\"),
+            c if (c as u32) < 0x20 => {
+                let _ = write!(out, "\\u{:04x}", c as u32);
+            }
+            c => out.push(c),
+        }
+    }
+    out.push('"');
+    out
+}
+
+pub fn q_list<T: Display>(vs: &[T]) -> String {
+    let items: Vec<String> = vs.iter().map(q).collect();
+    format!("[{}]", items.join(","))
+}
+
+pub fn n_list(vs: &[usize]) -> String {
+    let items: Vec<String> = vs.iter().map(|v| v.to_string()).collect();
+    format!("[{}]", items.join(","))
+}
+
+/// One outermost traced call. Dropped without `finish*` (a panic unwinding through the call) it still
+/// emits its line, with result "panic".
+pub struct Scope {
+    head: String,
+    done: bool,
+}
+
+/// `Some` iff tracing is on and no traced call is running on this thread.
+pub fn enter() -> Option<Scope> {
+    sink()?;
+    if INSIDE.with(|c| c.replace(true)) {
+        return None;
+    }
+    Some(Scope {
+        head: String::new(),
+        done: false,
+    })
+}
+
+const READBACK_MAX: usize = 96;
+const EMPTIES_MAX: usize = 512;
+
+fn post_state<T: ZerokitMerkleTree>(t: &T, touched: &[usize]) -> String {
+    let r = std::panic::catch_unwind(std::panic::AssertUnwindSafe(|| {
+        let mut s = format!(
+            "\"root\":{},\"next\":{},\"d\":{}",
+            q(&t.root()),
+            t.leaves_set(),
+            t.depth()
+        );
+        let mut pos: Vec<usize> = touched.to_vec();
+        pos.sort_unstable();
+        pos.dedup();
+        if pos.len() > READBACK_MAX {
+            let tail = pos.split_off(pos.len() - READBACK_MAX / 2);
+            pos.truncate(READBACK_MAX / 2);
+            pos.extend(tail);
+        }
+        let rb: Vec<String> = pos
+            .iter()
+            .map(|&i| match t.get(i) {
+                Ok(v) => format!("[{},{}]", i, q(&v)),
+                Err(_) => format!("[{},\"!\"]", i),
+            })
+            .collect();
+        let _ = write!(s, ",\"rb\":[{}]", rb.join(","));
+        if t.leaves_set() <= EMPTIES_MAX {
+            let _ = write!(s, ",\"empties\":{}", n_list(&t.get_empty_leaves_indices()));
+        }
+        s
+    }));
+    r.unwrap_or_else(|_| "\"post\":\"panic\"".to_string())
+}
+
+impl Scope {
+    /// instance, backend, call and arguments (`args` = JSON members without braces, may be empty)
+    pub fn call<T: ZerokitMerkleTree>(mut self, id: usize, be: &str, ev: &str, args: String) -> Self {
+        self.head = format!(
+            "\"inst\":{},\"be\":\"{}\",\"h\":{},\"ev\":\"{}\"{}{}",
+            id,
+            be,
+            q(&std::any::type_name::<T::Hasher>()),
+            ev,
+            if args.is_empty() { "" } else { "," },
+            args
+        );
+        self
+    }
+
+    pub fn finish<T: ZerokitMerkleTree>(mut self, t: &T, ok: bool, touched: &[usize]) {
+        self.done = true;
+        let body = format!(
+            "{},\"res\":\"{}\",{}",
+            self.head,
+            if ok { "ok" } else { "err" },
+            post_state(t, touched)
+        );
+        emit(&body);
+        INSIDE.with(|c| c.set(false));
+    }
+
+    /// for constructors: the instance exists only afterwards
+    pub fn finish_new<T: ZerokitMerkleTree>(
+        mut self,
+        be: &str,
+        t: Option<(&T, usize)>,
+        depth: usize,
+        init: String,
+    ) {
+        self.done = true;
+        let body = match t {
+            Some((t, id)) => format!(
+                "\"inst\":{},\"be\":\"{}\",\"h\":{},\"ev\":\"new\",\"z\":{},\"init\":{},\"res\":\"ok\",{}",
+                id,
+                be,
+                q(&std::any::type_name::<T::Hasher>()),
+                q(&<T::Hasher as Hasher>::default_leaf()),
+                init,
+                post_state(t, &[])
+            ),
+            None => format!(
+                "\"inst\":0,\"be\":\"{}\",\"h\":{},\"ev\":\"new\",\"res\":\"err\",\"d\":{}",
+                be,
+                q(&std::any::type_name::<T::Hasher>()),
+                depth
+            ),
+        };
+        emit(&body);
+        INSIDE.with(|c| c.set(false));
+    }
+}
+
+impl Drop for Scope {
+    fn drop(&mut self) {
+        if !self.done {
+            if self.head.is_empty() {
+                emit("\"inst\":0,\"ev\":\"new\",\"res\":\"panic\"");
+            } else {
+                emit(&format!("{},\"res\":\"panic\"", self.head));
+            }
+            INSIDE.with(|c| c.set(false));
+        }
+    }
+}
+
+/// a tree instance went away: its identity (an address) may be reused from now on
+pub fn dropped(id: usize, be: &str) {
+    if sink().is_some() {
+        emit(&format!("\"inst\":{},\"be\":\"{}\",\"ev\":\"drop\"", id, be));
+    }
+}
